@@ -84,14 +84,14 @@ def build_catalog(spec):
     if spec['pm'] == 'list':
         pm = []
         for p, m, ts in routing.MODELS:
-            d = {'name': m, 'integration_name': p}
+            d = {'name': m, 'integration_name': cc(p)}
             if ts:
                 d.update(timeseries=True, **copy.deepcopy(ts))
             pm.append(d)
     else:
         pm = {}
         for p, m, ts in routing.MODELS:
-            d = {} if p == 'mindsdb' else {'integration_name': p}      # legacy: namespace from predictor_namespace
+            d = {} if p == 'mindsdb' else {'integration_name': cc(p)}      # legacy: namespace from predictor_namespace
             if ts:
                 d.update(timeseries=True, **copy.deepcopy(ts))
             pm[m] = d
@@ -122,9 +122,9 @@ def plan_with(tree, spec, mode):
         for s in planner.prepare_steps(tree):
             cn = type(s).__name__
             if cn == 'GetTableColumns':
-                key = (s.namespace, s.table, s.table)
+                key = (str(s.namespace).lower(), s.table, s.table)     # the place, not its spelling in the catalog
             else:
-                key = (s.namespace, str(s.predictor.parts[-1]), str(s.predictor.parts[-1]))
+                key = (str(s.namespace).lower(), str(s.predictor.parts[-1]), str(s.predictor.parts[-1]))
             s.set_result({'values': [], 'tables': [key],
                           'columns': {key: [{'name': c, 'type': 'int'} for c in PREPARED_COLUMNS]}})
             pre.append(s)
